@@ -142,7 +142,7 @@ def run(ck):
     def mut(nm, pred, f):
         c = next((copy.deepcopy(e) for e in good if pred(e)), None)
         if c is None:
-            if not ck.violations:
+            if not ck.violations and not ck.known_hit:
                 raise Infra("no accepted line for canary '%s'" % nm)
             return
         f(c); cl.append(("C->S: " + nm, c))
